@@ -12,6 +12,20 @@ def _constants():
     except Exception:
         raise vplib.Machinery("zk group: %s" % out.stdout[-500:])
 
+def small_groups(chk):
+    """BuildGroup on every small safe prime returns, with two different generators of the subgroup of squares or a refusal (D57)"""
+    import subprocess, json
+    exe = vplib.build_harness("zk", False)
+    out = subprocess.run([exe, "smallgroups"], stdout=subprocess.PIPE, stderr=subprocess.STDOUT, text=True, timeout=120)
+    rows = [json.loads(l) for l in out.stdout.strip().splitlines() if l.startswith("{")]
+    if len(rows) < 8:
+        raise vplib.Machinery("zk smallgroups: %s" % out.stdout[-500:])
+    for r in rows:
+        chk.evaluations += 1
+        if r["result"] not in ("ok", "refused"):
+            chk.add_violation({"kind": "proof-group-construction", "what": "zkproof.BuildGroup(%d): %s" % (r["p"], r["result"])})
+    chk.extra["small_groups"] = rows
+
 def run(chk, variant):
     cfg = "ZkProof.%s.cfg" % variant
     consts = _constants()
@@ -22,6 +36,7 @@ def run(chk, variant):
     if len(cases) < 10000:
         raise vplib.Machinery("ZkProof generator produced only %d cases" % len(cases))
     if variant == "group":
+        small_groups(chk)
         r = vplib.tlc_mc("ZkProof", "ZkProof.sound.cfg", timeout=900, constants=consts)
         chk.add_tlc(r, "ZkProof", "ZkProof.sound.cfg", "Sound2 (special soundness in the prime-order toy group)")
         for c, inv in (("ZkProof.vacuity1.cfg", "NeverTrue"), ("ZkProof.vacuity2.cfg", "NeverZero")):
